@@ -237,6 +237,24 @@ Lemma forward_payload_unchanged : forall q oob,
   tx_l4 (forward_tx q oob) = rx_l4 q /\ unchanged (rx_hdr q) (tx_hdr (forward_tx q oob)).
 Proof. intros. unfold forward_tx, unchanged. simpl. tauto. Qed.
 
+Lemma forward_extensions : forall q oob,
+  let ts := mkOpt OPT_TIMESTAMP oob in
+  let t := forward_tx q oob in
+  (h_next (rx_hdr q) = E2E_CLASS ->
+     h_next (tx_hdr t) = E2E_CLASS /\
+     tx_e2e t = Some (rx_opts q ++ (if zlen oob =? 0 then [] else [ts]))) /\
+  (h_next (rx_hdr q) <> E2E_CLASS ->
+     (zlen oob = 0 -> tx_e2e t = None /\ h_next (tx_hdr t) = h_next (rx_hdr q)) /\
+     (zlen oob <> 0 -> tx_e2e t = Some [ts] /\ h_next (tx_hdr t) = E2E_CLASS)).
+Proof.
+  intros q oob ts t. unfold t, forward_tx. split.
+  - intro H. rewrite H. cbn [tx_hdr tx_e2e set_next h_next]. change (E2E_CLASS =? E2E_CLASS) with true. cbv beta iota.
+    destruct (zlen oob =? 0); cbn [negb]; split; reflexivity.
+  - intro H. apply Z.eqb_neq in H. rewrite H. split; intro Hz.
+    + rewrite Hz. cbn [negb Z.eqb tx_hdr tx_e2e set_next h_next]. rewrite H. split; reflexivity.
+    + apply Z.eqb_neq in Hz. rewrite Hz. cbn [negb tx_hdr tx_e2e set_next h_next]. change (E2E_CLASS =? E2E_CLASS) with true. split; reflexivity.
+Qed.
+
 (* ---- 3. the reply to a verified request verifies at the requesting client ---- *)
 Definition reply_hdr (c : scfg) (h : hdr) (pt : Z) (pp : bytes) : hdr :=
   swap_hdr h pt pp (u8 (Z.shiftl (s_dscp c) 2)) L4_UDP.
@@ -775,6 +793,19 @@ Proof.
   rewrite (srv_clause_bad_mac c q oob Hwf Hkey), (srv_clause_reply_auth c q oob Hlen Hwf Hkey),
           (srv_clause_at_most_one c q oob), (srv_clause_addressing c q oob), (srv_clause_forward_due c q oob).
   reflexivity.
+Qed.
+
+(* which key is "the host-to-host key": the listener asks for exactly one key, the
+   one of keyreq_of q (server = the packet's destination ISD-AS and host, client =
+   its source ISD-AS and host); nothing else of the key source matters *)
+Lemma server_step_key_ext : forall fk1 fk2 c q oob,
+  fk1 (keyreq_of q) = fk2 (keyreq_of q) ->
+  ScionGlue.server_step mac reverse fk1 ntp_handle c q oob = ScionGlue.server_step mac reverse fk2 ntp_handle c q oob.
+Proof.
+  intros fk1 fk2 c q oob H.
+  assert (Ha : ScionGlue.server_auth mac fk1 c q = ScionGlue.server_auth mac fk2 c q).
+  { unfold ScionGlue.server_auth. unfold keyreq_of in H. rewrite H. reflexivity. }
+  unfold ScionGlue.server_step. rewrite Ha. reflexivity.
 Qed.
 
 (* ---- the listener without a key (daemon error / malformed key): the oracle of
